@@ -5,6 +5,44 @@ open AmVerif AmVerif.Crdt AmVerif.Wire Driver.Crdt
 
 def exec (st : State) (toks : List String) : State × List String :=
   match toks with
+  -- `AutoCommit::isolate(heads)` / `integrate()`
+  | ["crdt.x.isolate", r, hs] =>
+    match unhxList hs with
+    | some heads => ({ st with iso := (r, heads) :: st.iso.filter (fun p => p.1 != r), txs := st.txs.filter (fun p => p.1 != r) }, ["ok"])
+    | none => (st, ["bad-input"])
+  | ["crdt.x.integrate", r] =>
+    ({ st with iso := st.iso.filter (fun p => p.1 != r), txs := st.txs.filter (fun p => p.1 != r) }, ["ok"])
+  -- crdt.x.migrate r r2 : r2 := load(save r) with StringMigration::ConvertToText; the migration
+  -- change is made by a fresh actor, rendered as `4d494752`
+  | ["crdt.x.migrate", r, r2] =>
+    let d := getReplica st r
+    let actor : Bytes := [0x4d, 0x49, 0x47, 0x52]
+    let convs := conversions d.ops
+    if convs.isEmpty then
+      (setReplica { st with actors := (r2, actor) :: st.actors.filter (fun p => p.1 != r2) } r2 d, [s!"ok added=0 {showDoc d.ops}"])
+    else
+      match applyConversions st.enc d.ops (d.beginTx actor) convs with
+      | .error e => (st, [s!"err {e.show}"])
+      | .ok t =>
+        let c : Change := ⟨[], actor, 1, t.startOp, d.heads, t.pending⟩
+        let d' : Doc := { d with applied := d.applied ++ [c] }
+        (setReplica { st with actors := (r2, actor) :: st.actors.filter (fun p => p.1 != r2) } r2 d', [s!"ok added=1 {showDoc d'.ops}"])
+  -- an object id used on a replica: `ok <length> <contents>` if the replica contains the object
+  | ["crdt.x.useid", r, obj] =>
+    match parseObj obj with
+    | none => (st, ["bad-input"])
+    | some o =>
+      let d := getReplica st r
+      let pend := match st.txs.find? (fun p => p.1 == r) with | some (_, t) => t.pending | none => []
+      let ops := d.ops ++ pend
+      match objType ops o with
+      | none => (st, ["err"])
+      | some ty =>
+        let len := match ty with
+          | .map | .table => (mapKeys ops o).length
+          | .list => (seqElems ops o).length
+          | .text => ((seqRegs ops o).map (fun (p : OpId × List Op) => match p.2.getLast? with | some x => opWidth st.enc true x | none => 0)).foldl (· + ·) 0
+        (st, [s!"ok {len} {showObj ops (ops.length + 1) o ty}"])
   | _ => (st, ["unknown-cmd"])
 
 end Driver.CrdtX
